@@ -253,12 +253,45 @@ class Influence:
             out.append((e, d, p))
         return out
 
+    def _self_summary(self, n, depth=0):
+        """`self.helper(..)` with a helper of the same crate: the fields of self that reach every value-carrying return of
+        the helper (the intersection over its paths: a field is reported only if no path of the helper drops it)"""
+        r = strip(n["recv"])
+        while r.get("k") in ("Ref", "Unary"):
+            r = strip(r["e"])
+        if self.self_local is None or r.get("k") != "Path" or r.get("local") != self.self_local or getattr(self, "_depth", 0) >= 3:
+            return frozenset()
+        g = None
+        for di in (n.get("inst"), n.get("def")):
+            if di is None:
+                continue
+            d = self.c.dfn(di)
+            if d is None or d.get("krate") != self.c.name:
+                continue
+            g = next((h for h in self.c.fns if h["def"] == di), None)
+            if g is not None:
+                break
+        if g is None or g is self.fn or g.get("body") is None:
+            return frozenset()
+        sub = Influence(g, self.mutators, self.control)
+        sub._depth = getattr(self, "_depth", 0) + 1
+        sub.run()
+        rets = [r_[0] for r_ in sub.returns if not (r_[0] and all(x.startswith("call:Err") for x in r_[0]))]
+        if not rets:
+            return frozenset()
+        common = None
+        for r_ in rets:
+            fields = frozenset(x for x in r_ if x.startswith("self."))
+            common = fields if common is None else (common & fields)
+        return common or frozenset()
+
     def ev_MethodCall(self, n, env, path):
         out = []
         at = self.c.ty(n["recv"].get("at")) if n["recv"].get("at") is not None else ""
         mut = n["name"] in self.mutators or (at or "").startswith("&mut ")
+        via_self = self._self_summary(n)
         for e, ds, p in self.seq([n["recv"]] + list(n["args"]), env, path):
-            d = self.union(ds) | frozenset(["call:" + n["name"]])
+            d = self.union(ds) | frozenset(["call:" + n["name"]]) | via_self
             if mut and n["args"]:
                 e = dict(e)
                 self.taint_root(n["recv"], self.union(ds[1:]), e)
